@@ -16,11 +16,15 @@ TECH = ("Lean 4 theorems about a hand-written executable model + regenerated-tab
 CLAIMS = {
  "C01": ("eval_correct/C01: for every filter-free compiled query and every well-formed JSON value within the depth limit, Impl.find = RFC selection (lists: order and duplicates included), by mutual induction over the AST and the nested Json type; C07 slice/index lemmas. Text->AST is covered by the independent RFC oracle (Spec.Grammar) in the exploration, not yet by a theorem.", "§7 C01"),
  "C02": ("eval_correct: for every well-typed compiled query (arbitrary function registry satisfying an explicit contract, proved for length/count/value), every well-formed JSON value within the depth limit, the dynamically typed evaluator model returns exactly the RFC 9535 nodelist; existence/logic/scoping lemmas. Tie B on filter queries over documents with children of every kind, judged by the independent RFC oracle.", "§7 C02"),
+ "C03": ("PARTIAL. Proved: the lexical clauses — C09: for every input, the two-phase string-literal reader (lexer string loop + _decode_string_literal with its replace pair and surrogate arithmetic) accepts exactly what the RFC string-literal grammar derives, in either quote style and every escape form, with the RFC's denotation; C13_lex/C13_token_shapes: the lexer is total and hands over well-shaped tokens; Tie A obligations pin the regexes, ESCAPES, dispatch maps, precedences and built-in signatures the model was written against. NOT proved: whole-language completeness of the Pratt parser (every valid query compiles to the derivation's AST); that clause is decided on every run by the oracle search: grammar-directed valid strings judged by the independent recogniser Spec.Grammar+Spec.Valid, real compile() must accept and build the same AST.", "§7 C03"),
+ "C04": ("PARTIAL. Proved: C05_partial — nothing ill-typed or out of the integer range is ever given a query object, for every string and registry; C09 — a literal outside the grammar (raw control, unknown/truncated escape, other quote escaped, unpaired surrogate) is rejected, for every input; C13_lex/C13_token_shapes. NOT proved: 'accepted => derivable' for the whole grammar (parser soundness against Spec.Grammar); decided on every run by the oracle search: every single-edit neighbour / mutant / token sequence that the independent recogniser judges invalid must make real compile() raise a JSONPathError, and the model must predict class and offset.", "§7 C04"),
  "C05": ("C05_partial (soundness, all strings, all registries): whatever compile() returns is well-typed under RFC 9535 §2.4.3 for the registry's own signatures and within the configured integer range (Hoare-style proof over the 14 mutually recursive parser functions); C05_arg_rule: check_well_typedness is the RFC rule per parameter type. Completeness (every valid query compiles) is decided by the oracle search with random registries, not yet a theorem.", "§7 C05"),
  "C06": ("C06: Impl.compare (the _compare/_eq/_json_eq/_lt model) equals the RFC comparison table for all comparands (any JSON kind at any depth, Nothing, empty nodelist) and all six operators; jsonEq is an equivalence; booleans never equal numbers; only numbers and strings are ordered.", "§7 C06"),
  "C07": ("C07_slice/C07_index: the slice.indices+range+zip model and the negative-index model equal the RFC normalize/bounds/iterate procedure for all lengths and all (start,end,step) over unbounded integers; locations non-negative and in range; step 0 and non-arrays select nothing. Tie B incl. the CPython slice primitive itself.", "§7 C07"),
  "C08": ("C08_loc: every node any query yields on a well-formed value satisfies getAt root location = value (any query, any registry, streams cut short by errors included); C08_canonical/C08_path_normal: canonical_string (json.dumps + two str.replace) and path() equal the RFC normalized name/path for every string over every Unicode scalar value; C08_unique: normalized paths determine the location. Object identity and the re-query clause are explored on the real code (is / find(path())), the latter not yet a theorem.", "§7 C08"),
+ "C09": ("C09 (full statement, every input): implString q inp = Spec.stringBody q ... — the implementation's two-phase reading of a string literal (lexer string loop, then the quote-normalising replace pair and the escape decoder) equals the one-pass RFC recogniser: same acceptance, same denoted string, same remaining input, for both quote styles; hence every \\b \\f \\n \\r \\t \\/ \\\\ own-quote, \\uXXXX of either hex case incl. controls and U+0000, and surrogate pairs decode as the RFC says, and raw controls / unknown or truncated escapes / the other quote escaped / unpaired surrogates are rejected; C09_surrogate_arith for all 1024x1024 pairs; the decoder cannot raise IndexError on lexer output. The link lexer-object-loop = scanString is part of C13_token_shapes.", "§7 C09"),
  "C10": ("C10_args: what a function body receives (evaluate + _unpack_node_lists) is exactly the RFC conversion of the arguments to the declared parameter types, for any registry and any well-typed argument list; length/count/value specs; result use by declared type. Tie B with recording probe functions.", "§7 C10"),
+ "C13": ("PARTIAL. Proved: C13_lex — for every string the lexer terminates within its fuel (potential 3*(n-pos)+rank strictly decreases) and returns tokens or a JSONPathError; C13_token_shapes — token lists end in EOF, INDEX texts are -?[0-9]+ (int() cannot fail), string texts were accepted by the string loop (the decoder cannot raise IndexError: C09_no_index_error); C13_eval_partial — a query compile() returns, applied to a well-formed value within the depth limit with the built-in registry, evaluates without any exception (C05_partial + eval_correct). NOT yet proved: the parser half of compile totality (no non-JSONPath exception, fuel sufficiency) and evaluation beyond the depth limit; explored with garbage strings to 1024 chars / nesting 32 and every JSON kind as root and child, the model predicting the exact outcome class.", "§7 C13"),
  "C14": ("C14_history: after ANY finite history of API operations that registers nothing on a query's own environment, applying the query gives the outcome it gave before (induction over operation lists on the World model); apply/find are pure (world unchanged); outcome is a function of (AST, environment configuration, value); frame theorems for register/subclass; recompilation gives identical behaviour. What makes this about the code: the regenerated effect table (no store/mutation on any object that outlives a call: Tables.writes_benign) and the hist correspondence op replaying random histories on the real objects; non-modification of the document is observed (deep snapshot), not proved.", "§7 C14"),
  "C15": ("C15_*: find = list(finditer), find_one = head (even when a later element would raise), environment and module-level paths = compile followed by the compiled query's methods, invalid queries raise the same class eagerly from every entry point — equations between the model's definitions of the 11 public callables; that the real callables are wired this way is explored by pushing every (query, value) through all of them.", "§7 C15"),
  "C16": ("C16 (interleave_independent): for any number of result-iterator cursors and ANY schedule of next() calls, what iterator i sees is the prefix of its solitary run (induction on the schedule), abandoned iterators included; premise 'nothing shared is written' is the regenerated effect table. Real code: every interleaving of k<=3 live iterators up to the combined result length (enumerated or sampled). Threads are a stress test under a minimal switch interval, not proved (GIL scheduling is outside any model).", "§7 C16"),
